@@ -21,7 +21,7 @@ import (
 	"github.com/jamespfennell/gtfs/journal"
 )
 
-var c20IDs = []string{"%d23456_L..N0%d", "", "with space %d", " lead%d", "é%d-x", "1A 0%d23+ PEL/BBR", "a&b<c>'d%d;e=f|g\\h", "\tlead%d", "trail%d ", "\u00a0nbsp%d\u00a0"}
+var c20IDs = []string{"%d23456_L..N0%d", "", "with space %d", " lead%d", "é%d-x", "1A 0%d23+ PEL/BBR", "a&b<c>'d%d;e=f|g\\h", "\tlead%d", "trail%d ", "\u00a0nbsp%d\u00a0", "Caf\xe9-%d\xff"}
 
 func c20Gen(c *Ctx, maxTrips int) *journal.Journal {
 	j := &journal.Journal{}
@@ -45,10 +45,10 @@ func c20Gen(c *Ctx, maxTrips int) *journal.Journal {
 		t := journal.Trip{
 			TripUID:             mk(idk, 1),
 			TripID:              mk(c.Choose(p+"tripid", len(c20IDs)), 2),
-			RouteID:             []string{"L", "", "6X", "A&C<"}[c.Choose(p+"route", 4)] + strconv.Itoa(i),
+			RouteID:             []string{"L", "", "6X", "A&C<", "R\xe9"}[c.Choose(p+"route", 5)] + strconv.Itoa(i),
 			DirectionID:         []gtfs.DirectionID{gtfs.DirectionID_True, gtfs.DirectionID_False, gtfs.DirectionID_Unspecified, gtfs.DirectionID(7)}[c.Choose(p+"dir", 4)],
 			StartTime:           time.Unix(int64(1700000000+1000*i), 0).UTC(),
-			VehicleID:           []string{"veh", "", "v v", "0L 1234+ 8AV/RPY &<>'"}[c.Choose(p+"vehicle", 4)] + strconv.Itoa(i),
+			VehicleID:           []string{"veh", "", "v v", "0L 1234+ 8AV/RPY &<>'", "v\xe9h\xc3"}[c.Choose(p+"vehicle", 5)] + strconv.Itoa(i),
 			IsAssigned:          true,
 			LastObserved:        time.Unix(int64(1700000500+1000*i), 0).In(zoneNY),
 			NumUpdates:          []int{3, 0, 12345}[c.Choose(p+"updates", 3)] + i,
@@ -83,13 +83,16 @@ func c20Gen(c *Ctx, maxTrips int) *journal.Journal {
 			q := fmt.Sprintf("%ss%d.", p, s)
 			tcount++
 			st := journal.StopTime{
-				StopID:       []string{"L0%dN", "", "stop %d", "<S&%d>'+"}[c.Choose(q+"stopid", 4)],
+				StopID:       []string{"L0%dN", "", "stop %d", "<S&%d>'+", "st\xe9p-%d\x80"}[c.Choose(q+"stopid", 5)],
 				LastObserved: time.Unix(int64(1700000000+1000*i+10*s+7), 0).UTC(),
 			}
 			if strings.Contains(st.StopID, "%d") {
 				st.StopID = fmt.Sprintf(st.StopID, tcount)
 			}
-			switch c.Choose(q+"track", 4) {
+			switch c.Choose(q+"track", 5) {
+			case 4:
+				v := fmt.Sprintf("tr\xffck %d", tcount)
+				st.Track = &v
 			case 0:
 				v := fmt.Sprintf("A%d", tcount)
 				st.Track = &v
@@ -311,7 +314,7 @@ func init() {
 	register(&Check{
 		ID:    "C20",
 		Level: "model_checking",
-		Rule: "journals with 0..2 (thorough 0..3) trips x 0..2 stop times per trip (full product over the counts) x k deviations (quick 2, thorough 3) over presence of track/arrival/departure/marked-past, direction (0/1/unspecified/out-of-range), id shapes (NYCT-like, empty, spaces, leading space, non-ASCII, characters such as + & < > ' ; | \\ that are special in other formats but not in CSV), counters (negative, zero, large), zero start times, instants with sub-second parts of 0.5 s and more; journals of 7..4099 trips (around powers of two, not multiples of 8) x 4 patterns of stop times per trip; " +
+		Rule: "journals with 0..2 (thorough 0..3) trips x 0..2 stop times per trip (full product over the counts) x k deviations (quick 2, thorough 3) over presence of track/arrival/departure/marked-past, direction (0/1/unspecified/out-of-range), id shapes (NYCT-like, empty, spaces, leading space, non-ASCII, invalid UTF-8, characters such as + & < > ' ; | \\ that are special in other formats but not in CSV), counters (negative, zero, large), zero start times, instants with sub-second parts of 0.5 s and more; journals of 7..4099 trips (around powers of two, not multiples of 8) x 4 patterns of stop times per trip; " +
 			"non-trivial = distinct journals with at least one trip; oracle = read back with encoding/csv by header name, cell-by-cell, journal dumped before/after",
 		Assumptions: []string{"ids and tracks are free of comma, double quote, CR and LF, as the property stipulates", "header names of the two tables are part of the observable interface"},
 		Scenarios: func(tier string) []*Scenario {
